@@ -7,4 +7,6 @@ import engine, anchors
 prog = engine.extract()
 sig = anchors.signatures(prog.j)
 json.dump(sig, open('/verif/rules/tables/fn_signatures.json', 'w'), indent=0, sort_keys=True)
-print('pinned', len(sig), 'function signatures')
+items = anchors.item_paths(prog.j)
+json.dump(items, open('/verif/rules/tables/item_paths.json', 'w'), indent=0, sort_keys=True)
+print('pinned', len(sig), 'function signatures,', len(items['adts']), 'types,', len(items['traits']), 'traits')
